@@ -17,7 +17,11 @@ Specialisation keys of a TARGETS entry beyond `params`: `expr_params` (expressio
 of the definition, e.g. `catalog.spatial_magnitude_counts()`), `opaque` / `opaque_consts` (library functions / constants passed
 as parameters), `ret` (declared result type: finite values embed into `ELL`, `numpy.nan` is `none`), `slice_result` (backward
 slice of an expression), `slice_call` (backward slice of the arguments of the unique call of a function), `records`, `statics`,
-`shapes`, `extended_log`.
+`shapes`, `extended_log`, `callees`, `self_calls`, `static_exprs`, `for_body` (the body of one `for` loop is the definition;
+`free_params` = variables of the enclosing function it reads; local lambdas / str constants of that function are inlined),
+`checked_datetime`, `objects` (the object layer: values are trees `JsonTree.PyObj`, exceptions `Py.ErrX`, raising operations
+inside expressions are bound in front of the statement in source order), `checked_index` (text records: `line[k]`, `float(s)`,
+`int(s)` raise), `slice_keep_all` / `slice_extra` (keep every statement but the call statement / append variables to the result).
 
 Anything else raises Untranslatable(function, lineno, reason): nothing is guessed and no statement is skipped silently.
 Every numpy / stdlib call accepted is in CALLS / METHODS / ATTRS below, with the prelude operation it maps to.
@@ -83,6 +87,17 @@ class Ty:
             return " × ".join(_paren(t.lean()) for t in self.item)
         if k == "string":
             return "List Char"
+        if k == "pyobj":
+            return "JsonTree.PyObj"
+        if k == "fbits":
+            return "ResultJson.F64"
+        if k == "optstr":
+            return "Option String"
+        if k == "strint":
+            return "(List Char ⊕ Int)"
+        if k == "attrs":
+            ts_ = list(self.item.values())
+            return ts_[0].lean() if len(ts_) == 1 else " × ".join(_paren(t_.lean()) for t_ in ts_)
         if k == "option":
             return f"Option {_paren(self.item.lean())}"
         if k == "ma":
@@ -117,7 +132,18 @@ NATE = Ty("nat", elem=True)
 EREAL = Ty("ereal")
 NONE = Ty("none")
 STR = Ty("str")            # a string constant known under the specialisation (no Lean value)
+FBITS = Ty("fbits")        # a float64 number given by its bit pattern (ResultJson.F64: NaN or the 64 bits), never computed with
+OPTSTR = Ty("optstr")      # a str or None
+
+
+def OBJ_ATTRS(**fields):
+    """an object read only through the named attributes (`poly.origin`): the tuple of their values"""
+    return Ty("attrs", item=dict(fields))
+
+
+PYOBJ = Ty("pyobj")        # an arbitrary Python value as a tree (Model/JsonTree.lean `PyObj`): the object layer
 STRING = Ty("string")      # a string value: the list of its characters
+STRINT = Ty("strint")      # a variable that holds a str on one path and an int on another: `Sum.inl s` / `Sum.inr n`
 DATETIME = Ty("datetime")
 TIMEDELTA = Ty("timedelta")
 
@@ -251,6 +277,30 @@ CALLS = {
     "a call of a raising translated function nested in the right-hand side of an assignment": "evaluated first, in a temporary",
     "TARGETS.for_body": "the body of one `for` statement as a function of its loop variables",
     "try: x = f(…); return x / except: pass (f a raising translated function)": "match f … | .ok x => ok x | .error _ => <the rest>",
+    "object layer (TARGETS.objects): values typed PYOBJ are trees `JsonTree.PyObj`; exceptions are `Py.ErrX`": "see PyPrelude",
+    "{'k': v, …} ; d['k'] ; d.get('k', default) ; x.tolist() ; list(x) (objects)":
+        "PyObj.dict (PyKVs.ofList …) ; Py.obj_item ; Py.obj_get ; Py.obj_tolist ; Py.obj_list (raising ones evaluated first, in order)",
+    "try: x = e1 / except E: x = e2 (objects)": "Py.tryCatch",
+    "try: x = e1 / except: raise E(…) (objects; bare except / except Exception)": "Py.tryRaise (every exception becomes E; `other` stays)",
+    "x is None ; x is not None (x : PYOBJ)": "JsonTree.PyObj.isNone x ; its negation",
+    "TARGETS.checked_index: line[k] (list of str, k ≥ 0 literal) ; float(s) ; int(s) (s a str)":
+        "Py.list_item (IndexError) ; Py.float_str ; Py.int_str (ValueError; text outside the text layer: `other`)",
+    "try: x = e1 / except ValueError: x = e2 (checked_index)": "Py.tryCatch … Py.Err.valueError …",
+    "try: x = s.decode(…) / except: pass (s a str)": "nothing (str has no .decode; the AttributeError is swallowed)",
+    "not s (s a str value)": "List.isEmpty s",
+    "a variable that is a str on one path of an `if` and an int on the other": "List Char ⊕ Int",
+    "continue (TARGETS.for_body)": "the result `none`; the end of the body is `some …`",
+    "f(a) where `f = lambda x: body` is assigned once at the top of the enclosing function (for_body) ; a str constant so assigned":
+        "body with x bound to a ; the constant",
+    "datetime.datetime.strptime(s, fmt).timestamp() (checked_index; fmt with %z)": "Py.strptime_timestamp (ValueError; formats / offsets outside the text model: `other`)",
+    "round(x) (x : float64, one argument)": "Soft64.roundHalfEven x (an int)",
+    "a and f(x) / a or f(x) where the later operand can raise": "if a then <f x> else ok false (resp. if !a … else ok true): evaluated only when reached",
+    "TARGETS.slice_keep_all / slice_extra": "every statement but the call statement is kept / further variables appended to the result",
+    "[a, b, …] ; [f(x) for x in obj] ; numpy.array(obj) (objects)":
+        "the list of trees ; Py.obj_mapM obj (fun x => …) (iteration and f can raise) ; Py.obj_nparray (float lists / rectangular float rows; else `other`)",
+    "if c: <assignments> [else: …] (objects)": "match (if c then <branch : Except> else …) with | .error e => error e | .ok vars => …",
+    "float(x) (x : FBITS) ; str(x) (x : OPTSTR) (objects)": "PyObj.pyFloat x ; PyObj.str (Py.optstr_str x)",
+    "obj.attr for a value typed OBJ_ATTRS(attr=…)": "the component",
     "numpy.sort(a) (list f64 / list int)": "Py.np_sort (ascending; stable merge sort by ≤)",
     "numpy.searchsorted(a, v[, side='left'|'right']) (a, v of one dtype)": "Py.searchsorted_left / _right (count of the "
     "leading elements < v / ≤ v: numpy's binary search result when a is ascending)",
@@ -338,6 +388,10 @@ class Fn:
     def __init__(self, tr, spec, node, relfile, optional=False):
         self.tr, self.spec, self.node, self.relfile = tr, spec, node, relfile
         self.optional = optional        # some live `return None`: the result type is `Option …`
+        self.objects = bool(spec.get("objects"))     # object layer: values are PyObj trees, exceptions are Py.ErrX
+        self.err = "Py.ErrX" if self.objects else "Py.Err"
+        self.has_continue = False
+        self.pending = []               # raising operations of the statement being translated: (temporary, Except-valued code)
         self.dict_keys = None           # keys of the dict literal the function returns (as a tuple in key order)
         self.elem_depth = 0             # > 0 while translating under a condition that depends on one array element
         self.nonuniform_raise = False   # some raise depends on the element (then array-level calls are not translated)
@@ -375,6 +429,25 @@ class Fn:
         if v.ty.kind == "bool":
             return f"(if {v.code} then (1 : Rat) else 0)"
         self.bad(node, f"cannot use {v.ty} as float64")
+
+    def to_pyobj(self, v, node):
+        if v.ty.kind == "pyobj":
+            return v.code
+        if v.ty.kind == "str" and v.is_static and isinstance(v.static, str):
+            return f"(JsonTree.PyObj.str {json.dumps(v.static)})"
+        if v.ty.kind == "none":
+            return "JsonTree.PyObj.none"
+        if v.ty.kind == "list" and v.ty.item.kind == "pyobj":
+            return f"(JsonTree.PyObj.list (JsonTree.PyList.ofList {v.code}))"
+        self.bad(node, f"cannot use {v.ty} as a Python object of the object layer")
+
+    def raising(self, code, ty):
+        """a prelude operation that can raise, inside an expression: evaluated first (in source order), in a temporary"""
+        if not self.raises:
+            self.bad(self.node, "raising operation in a definition declared not to raise")
+        tmp = self.fresh("v")
+        self.pending.append((tmp, code))
+        return Val(tmp, ty)
 
     def to_string(self, v, node):
         if v.ty.kind == "string":
@@ -451,6 +524,10 @@ class Fn:
             return self.to_q(v, node)
         if ty.kind == "string":
             return self.to_string(v, node)
+        if ty.kind == "pyobj":
+            return self.to_pyobj(v, node)
+        if ty.kind == "strint" and v.ty.kind in ("string", "int"):
+            return f"(Sum.inl {v.code})" if v.ty.kind == "string" else f"(Sum.inr {v.code})"
         if ty.kind == "real":
             return self.to_real(v, node)
         if ty.kind == "int" and v.ty.kind == "nat":
@@ -497,6 +574,9 @@ class Fn:
     def e_Name(self, e, env):
         if e.id in env:
             return env[e.id]
+        lc = self.spec.get("local_consts", {})
+        if e.id in lc:
+            return Val(None, STR, static=lc[e.id])     # a str constant assigned once in the enclosing function
         c = self.tr.module_const(self.relfile, e.id)
         if c is not None:
             return c
@@ -525,6 +605,8 @@ class Fn:
         if isinstance(e.op, (ast.Not, ast.Invert)):
             if v.is_static and isinstance(e.op, ast.Not):
                 return Val("true" if not v.static else "false", BOOL, static=not v.static)
+            if v.ty.kind == "string" and isinstance(e.op, ast.Not):
+                return Val(f"(List.isEmpty {v.code})", BOOL)       # truth value of a str: non-empty
             return Val(f"(!{self.to_bool(v, e)})", v.ty)
         self.bad(e, f"unary operator {type(e.op).__name__}")
 
@@ -658,6 +740,9 @@ class Fn:
                 elif a.ty.kind == "tzinfo":
                     code = f"(Py.Datetime.tzIsNone {a.code})"
                     return Val(code if name == "Is" else f"(!{code})", BOOL)
+                elif a.ty.kind == "pyobj":
+                    code = f"(JsonTree.PyObj.isNone {a.code})"      # a value of the object layer: None is one of its kinds
+                    return Val(code if name == "Is" else f"(!{code})", BOOL)
                 else:
                     r = False   # a value whose type under the specialisation is not Optional
                 r = r if name == "Is" else not r
@@ -719,8 +804,26 @@ class Fn:
         return self.compare(e.ops[0], a, b, e)
 
     def e_BoolOp(self, e, env):
-        vals = [self.expr(v, env) for v in e.values]
         is_and = isinstance(e.op, ast.And)
+        vals = []
+        for i_, x_ in enumerate(e.values):
+            save, self.pending = self.pending, []
+            try:
+                v_ = self.expr(x_, env)
+                mine = self.pending
+            finally:
+                self.pending = save
+            if mine and i_ > 0:
+                # short circuit: the raising operations of this operand happen only if the earlier operands are all
+                # true (`and`) / all false (`or`)
+                if any(p.is_static for p in vals) or v_.ty.kind != "bool":
+                    self.bad(e, "raising operand of and / or after a constant operand, or not a bool")
+                guard = " && ".join(self.to_bool(p, e) if is_and else f"(!{self.to_bool(p, e)})" for p in vals)
+                inner = self.wrap_pending(mine, f"(Except.ok {self.to_bool(v_, e)})")
+                v_ = self.raising(f"(if ({guard}) then {inner} else (Except.ok {'false' if is_and else 'true'}))", BOOL)
+            else:
+                self.pending.extend(mine)
+            vals.append(v_)
         # Python semantics of `and` / `or` with constants known under the specialisation
         out = []
         for i, v in enumerate(vals):
@@ -758,6 +861,10 @@ class Fn:
         keys = [k.value if isinstance(k, ast.Constant) else None for k in e.keys]
         if any(not isinstance(k, str) for k in keys):
             self.bad(e, "dict with non-literal keys")
+        if self.objects:
+            vs = [self.to_pyobj(self.expr(x, env), e) for x in e.values]
+            return Val("(JsonTree.PyObj.dict (JsonTree.PyKVs.ofList [" + ", ".join(
+                f"({json.dumps(k_)}, {v_})" for k_, v_ in zip(keys, vs)) + "]))", PYOBJ)
         vs = [self.expr(x, env) for x in e.values]
         self.notes.append(f"line {e.lineno}: dict result as tuple in key order {keys}")
         r = Val("(" + ", ".join(v.code for v in vs) + ")", TUPLE(*[v.ty.with_elem(False) for v in vs]))
@@ -765,11 +872,28 @@ class Fn:
         self.dict_keys = keys
         return r
 
+    def e_List(self, e, env):
+        if not self.objects:
+            self.bad(e, "list literal outside the object layer")
+        vs = [self.to_pyobj(self.expr(x, env), e) for x in e.elts]
+        return Val("[" + ", ".join(vs) + "]", LIST(PYOBJ))
+
     def e_ListComp(self, e, env):
         if len(e.generators) != 1 or e.generators[0].ifs or e.generators[0].is_async:
             self.bad(e, "list comprehension with filters / several generators")
         g = e.generators[0]
         it = self.expr(g.iter, env)
+        if self.objects and it.ty.kind == "pyobj" and isinstance(g.target, ast.Name):
+            # [f(x) for x in obj]: iterating can raise, f can raise; the first exception ends the comprehension
+            env2 = dict(env)
+            env2[g.target.id] = Val(mangle(g.target.id), PYOBJ)
+            save, self.pending = self.pending, []
+            try:
+                body = self.expr(e.elt, env2)
+                inner = self.wrap_pending(self.pending, f"(Except.ok {self.to_pyobj(body, e)})")
+            finally:
+                self.pending = save
+            return self.raising(f"(Py.obj_mapM {it.code} (fun {mangle(g.target.id)} => {inner}))", LIST(PYOBJ))
         if it.ty.kind != "list" or not isinstance(g.target, ast.Name):
             self.bad(e, "comprehension over a non-list")
         env2 = dict(env)
@@ -813,6 +937,13 @@ class Fn:
             self.bad(e, f"finfo(...).eps of {v.ty}")
         v = self.expr(e.value, env)
         a = e.attr
+        if v.ty.kind == "attrs":
+            names_ = list(v.ty.item)
+            if a not in names_:
+                self.bad(e, f"attribute .{a} of an object specialised to the attributes {names_}")
+            i_, n_ = names_.index(a), len(names_)
+            code_ = v.code if n_ == 1 else v.code + "".join([".2"] * i_) + (".1" if i_ < n_ - 1 else "")
+            return Val(code_, v.ty.item[a])
         if v.ty.kind == "list" and a == "size":
             return Val(f"(Py.size {v.code})", INT)
         if v.ty.kind == "list" and a == "shape":
@@ -850,6 +981,13 @@ class Fn:
             return env[key_]
         v = self.expr(e.value, env)
         s = e.slice
+        if self.spec.get("checked_index") and v.ty.kind == "list" and v.ty.item.kind == "string" \
+                and isinstance(s, ast.Constant) and isinstance(s.value, int) and not isinstance(s.value, bool) and s.value >= 0:
+            return self.raising(f"(Py.list_item {v.code} {s.value})", STRING)       # IndexError beyond the end
+        if v.ty.kind == "pyobj":
+            if isinstance(s, ast.Constant) and isinstance(s.value, str):
+                return self.raising(f"(Py.obj_item {v.code} {json.dumps(s.value)})", PYOBJ)      # d['key']: KeyError / TypeError
+            self.bad(e, "subscript of an object other than a constant string key")
         if v.ty.kind == "string":
             i = self.expr(s, env) if not isinstance(s, ast.Slice) else None
             if i is not None and i.lit is not None and isinstance(i.lit, int):
@@ -924,6 +1062,31 @@ class Fn:
         np_ = lambda *names: fn in [p + n for n in names for p in ("numpy.", "np.")]
         if fn in self.spec.get("records", ()) and not args and not kw:
             return Val(None, Ty("record"), static="record")       # a fresh result object: only its stored fields are read
+        ll = self.spec.get("local_lambdas", {})
+        if fn in ll and fn not in env and not kw:
+            lam = ll[fn]
+            la = lam.args
+            if la.vararg or la.kwarg or la.kwonlyargs or la.defaults or len(la.args) != len(args):
+                self.bad(e, f"call of the local lambda {fn} with other than its positional parameters")
+            env2 = dict(env)
+            for p_, a_ in zip(la.args, args):
+                env2[p_.arg] = self.expr(a_, env)          # the body with the parameters bound to the arguments
+            note_ = f"`{fn}` is the local lambda of line {lam.lineno}: its calls are its body with the parameters bound"
+            if note_ not in self.notes:
+                self.notes.append(note_)
+            return self.expr(lam.body, env2)
+        if isinstance(e.func, ast.Attribute) and e.func.attr == "timestamp" and not args and not kw \
+                and isinstance(e.func.value, ast.Call) and dotted(e.func.value.func) == "datetime.datetime.strptime" \
+                and len(e.func.value.args) == 2 and not e.func.value.keywords and self.spec.get("checked_index"):
+            s_, f_ = self.expr(e.func.value.args[0], env), self.expr(e.func.value.args[1], env)
+            if s_.ty.kind != "string" or not (f_.is_static and isinstance(f_.static, str)):
+                self.bad(e, "strptime(…).timestamp() of other than a string value and a constant format")
+            return self.raising(f"(Py.strptime_timestamp {s_.code} {str_lit(f_.static)})", F64)
+        if fn == "round" and len(args) == 1 and not kw:
+            v = A(0)
+            if v.ty.kind == "f64" and not v.ty.elem:
+                return Val(f"(Soft64.roundHalfEven {v.code})", INT)      # round(float) -> int: to nearest, ties to even, exact
+            self.bad(e, f"round() of {v.ty}")
         # ---- expressions that are parameters of the specialisation (e.g. `catalog.spatial_magnitude_counts()`) ----
         ep = self.spec.get("expr_params", {})
         if ep:
@@ -960,6 +1123,8 @@ class Fn:
             return self.tr.call(self, callee, vs, kw, e, env)
         if np_("asarray", "asanyarray", "array") and len(args) == 1:
             v = A(0)
+            if self.objects and (v.ty.kind == "pyobj" or (v.ty.kind == "list" and v.ty.item.kind == "pyobj")) and not kw:
+                return self.raising(f"(Py.obj_nparray {self.to_pyobj(v, e)})", PYOBJ)
             if "dtype" in kw and not (dotted(kw["dtype"]) in ("numpy.float64", "np.float64") and
                                       (v.ty.kind in ("f64", "real") or (v.ty.kind == "list" and v.ty.item.kind in ("f64", "real")))):
                 self.bad(e, "asarray with a dtype other than float64 on a float array")
@@ -1108,6 +1273,11 @@ class Fn:
                     return Val(f"({fn} {a.code} {b.code})", NAT)
                 return Val(f"({fn} {self.to_int(a, e)} {self.to_int(b, e)})", INT)
             self.bad(e, f"{fn} of {a.ty}, {b.ty}")
+        if fn == "list" and len(args) == 1 and not kw and self.objects:
+            v = A(0)
+            if v.ty.kind == "pyobj":
+                return self.raising(f"(Py.obj_list {v.code})", PYOBJ)       # TypeError for a value that is not iterable
+            self.bad(e, f"list() of {v.ty}")
         if fn == "len" and len(args) == 1:
             v = A(0)
             if v.ty.kind in ("list", "idxarr", "ma"):
@@ -1119,9 +1289,23 @@ class Fn:
                 return Val(f"(Py.truncF {v.code})", Ty("int", v.ty.elem))
             if v.ty.kind in ("int", "nat"):
                 return v
+            if v.ty.kind == "string" and self.spec.get("checked_index"):
+                return self.raising(f"(Py.int_str {v.code})", INT)          # int('…'): ValueError
             self.bad(e, f"int() of {v.ty}")
+        if fn == "float" and len(args) == 1 and self.objects:
+            v = A(0)
+            if v.ty.kind == "fbits":
+                return Val(f"(JsonTree.PyObj.pyFloat {v.code})", PYOBJ)     # float(x) of a float64 number: the Python float
+            self.bad(e, f"float() of {v.ty} in the object layer")
+        if fn == "str" and len(args) == 1 and self.objects:
+            v = A(0)
+            if v.ty.kind == "optstr":
+                return Val(f"(JsonTree.PyObj.str (Py.optstr_str {v.code}))", PYOBJ)   # str(x) of a str or None
+            self.bad(e, f"str() of {v.ty} in the object layer")
         if fn == "float" and len(args) == 1:
             v = A(0)
+            if v.ty.kind == "string" and self.spec.get("checked_index"):
+                return self.raising(f"(Py.float_str {v.code})", F64)        # float('…'): ValueError
             if v.ty.kind in ("int", "nat", "f64"):
                 return Val(self.to_f64(v, e), Ty("f64", v.ty.elem))
             if v.ty.kind == "real":
@@ -1271,6 +1455,12 @@ class Fn:
                 if recv.ty.kind == "f64":
                     return Val(f"(Py.truncF {recv.code})", Ty("int", recv.ty.elem))
                 self.bad(e, f"astype(int64) of {recv.ty}")
+            if m == "tolist" and not args and not kw and recv.ty.kind == "pyobj":
+                return self.raising(f"(Py.obj_tolist {recv.code})", PYOBJ)  # AttributeError for a value without .tolist
+            if m == "get" and len(args) == 2 and not kw and recv.ty.kind == "pyobj" and isinstance(args[0], ast.Constant) \
+                    and isinstance(args[0].value, str):
+                d_ = self.expr(args[1], env)
+                return self.raising(f"(Py.obj_get {recv.code} {json.dumps(args[0].value)} {self.to_pyobj(d_, e)})", PYOBJ)
             if m == "ravel" and not args:
                 if recv.ty.kind in ("list", "ma") or recv.ty.elem:
                     return recv
@@ -1328,7 +1518,17 @@ class Fn:
 
     @staticmethod
     def has_exit(stmts):
-        return any(isinstance(n, (ast.Return, ast.Raise)) for s in stmts for n in ast.walk(s))
+        """does a statement list contain a `return` / `raise` (the `raise` of the handler in `try: x = e / except: raise E`
+        is part of that statement's own meaning, Py.tryRaise, and does not count)"""
+        def walk(n):
+            if isinstance(n, ast.Try) and len(n.body) == 1 and isinstance(n.body[0], ast.Assign) and len(n.handlers) == 1 \
+                    and len(n.handlers[0].body) == 1 and isinstance(n.handlers[0].body[0], ast.Raise) \
+                    and not n.orelse and not n.finalbody:
+                return False
+            if isinstance(n, (ast.Return, ast.Raise, ast.Continue)):
+                return True
+            return any(walk(c) for c in ast.iter_child_nodes(n))
+        return any(walk(s) for s in stmts)
 
     @staticmethod
     def assigned(stmts):
@@ -1377,9 +1577,28 @@ class Fn:
         return f"(Except.ok {code})" if self.raises else code
 
     def block(self, stmts, env, k, ind):
-        """Lean term for `stmts` followed by the continuation k(env)"""
+        """Lean term for `stmts` followed by the continuation k(env). Raising operations met while translating the first
+        statement's expressions (self.pending) are bound in front of it, in the order met."""
         if not stmts:
             return k(env)
+        outer, mine = self.pending, []
+        self.pending = mine
+        try:
+            text = self.block1(stmts, env, k, ind)
+        finally:
+            self.pending = outer
+        pad = "  " * ind
+        for tmp, code in reversed(mine):
+            text = f"{pad}match {code} with\n{pad}| .error e_ => (Except.error e_)\n{pad}| .ok {tmp} =>\n{text}"
+        return text
+
+    def wrap_pending(self, pend, inner):
+        """Except-valued term: the pending raising operations, then `inner` (an Except-valued term)"""
+        for tmp, code in reversed(pend):
+            inner = f"(match {code} with | .error e_ => (Except.error e_) | .ok {tmp} => {inner})"
+        return inner
+
+    def block1(self, stmts, env, k, ind):
         s, rest = stmts[0], stmts[1:]
         pad = "  " * ind
         go = lambda env2: self.block(rest, env2, k, ind)
@@ -1387,6 +1606,10 @@ class Fn:
             return go(env)      # docstring
         if isinstance(s, ast.Pass):
             return go(env)
+        if isinstance(s, ast.Continue):
+            if not self.has_continue:
+                self.bad(s, "continue outside a loop body that is the definition (TARGETS.for_body)")
+            return pad + self.ret("none")       # this pass of the loop produces nothing
         if isinstance(s, ast.Return):
             if s.value is None:
                 self.bad(s, "bare return")
@@ -1416,7 +1639,7 @@ class Fn:
                 return pad + (f"(Except.ok none)" if self.raises else "none")
             if v.is_static and v.code is None:
                 self.bad(s, f"return of a {v.ty} constant")
-            if v.ty.kind not in ("string", "f64", "q", "int", "nat", "bool", "real", "ereal", "list", "tuple", "datetime", "timedelta",
+            if v.ty.kind not in ("pyobj", "string", "f64", "q", "int", "nat", "bool", "real", "ereal", "list", "tuple", "datetime", "timedelta",
                                  "option"):
                 self.bad(s, f"return of {v.ty}")
             rt = v.ty.with_elem(False)
@@ -1432,9 +1655,12 @@ class Fn:
         if isinstance(s, ast.Raise):
             exc = dotted(s.exc.func) if isinstance(s.exc, ast.Call) else dotted(s.exc) if s.exc is not None else None
             kind = {"ValueError": "valueError", "IndexError": "indexError", "AssertionError": "assertionError"}.get(exc, "other")
+            if self.objects:
+                kind = {"ValueError": "valueError", "KeyError": "keyError", "TypeError": "typeError",
+                        "AttributeError": "attributeError"}.get(exc, "other")
             if self.elem_depth > 0:
                 self.nonuniform_raise = True
-            return f"{pad}(Except.error Py.Err.{kind})"
+            return f"{pad}(Except.error {self.err}.{kind})"
         if isinstance(s, ast.Assign):
             if len(s.targets) != 1:
                 self.bad(s, "multiple assignment targets")
@@ -1600,6 +1826,8 @@ class Fn:
                 ta, tb = ends[0][nm].ty, ends[1][nm].ty
                 if {ta.kind, tb.kind} <= {"str", "string"}:
                     tys[nm] = STRING     # a string that depends on the branch taken: a value
+                elif {ta.kind, tb.kind} == {"string", "int"}:
+                    tys[nm] = STRINT     # a str on one path, an int on the other
                 elif ta == tb:
                     tys[nm] = ta.with_elem(ta.elem or tb.elem)
                 elif {ta.kind, tb.kind} <= {"real", "nat", "int"} and "real" in (ta.kind, tb.kind):
@@ -1610,11 +1838,22 @@ class Fn:
             def emit(body):
                 def kk(env_end):
                     vals = [self.coerce(env_end[nm], tys[nm], s) for nm in names]
-                    return "  " * (ind + 1) + ("(" + ", ".join(vals) + ")" if len(vals) > 1 else vals[0])
+                    tup = "(" + ", ".join(vals) + ")" if len(vals) > 1 else vals[0]
+                    return "  " * (ind + 1) + (f"(Except.ok {tup})" if self.objects else tup)
                 return self.block(list(body), dict(env), kk, ind + 1)
             a, b = emit(s.body), emit(s.orelse)
             env2 = dict(env)
-            if len(names) == 1:
+            if self.objects:
+                # object layer: the statements of a branch can raise; the branch is an Except-valued term
+                tmp = self.fresh("br")
+                out = (f"{pad}match (if {cc} then\n{a}\n{pad}else\n{b}) with\n{pad}| .error e_ => (Except.error e_)\n"
+                       f"{pad}| .ok {tmp} =>\n")
+                n = len(names)
+                for i, nm in enumerate(names):
+                    proj = tmp if n == 1 else tmp + "".join([".2"] * i) + (".1" if i < n - 1 else "")
+                    env2[nm] = Val(mangle(nm), tys[nm])
+                    out += f"{pad}let {mangle(nm)} := {proj};\n"
+            elif len(names) == 1:
                 env2[names[0]] = Val(mangle(names[0]), tys[names[0]])
                 out = f"{pad}let {mangle(names[0])} := (if {cc} then\n{a}\n{pad}else\n{b});\n"
             else:
@@ -1646,6 +1885,61 @@ class Fn:
             tmp = self.fresh("r")
             return (f"{pad}match {v.code} with\n{pad}| .ok {tmp} => (Except.ok {tmp})\n{pad}| .error _ =>\n"
                     + self.block(rest, env, k, ind + 1))
+        if isinstance(s, ast.Try) and not s.orelse and not s.finalbody and len(s.handlers) == 1 and len(s.body) == 1 \
+                and isinstance(s.body[0], ast.Assign) and len(s.body[0].targets) == 1 \
+                and isinstance(s.body[0].targets[0], ast.Name) and s.handlers[0].type is None \
+                and all(isinstance(h_, ast.Pass) for h_ in s.handlers[0].body) \
+                and isinstance(s.body[0].value, ast.Call) and isinstance(s.body[0].value.func, ast.Attribute) \
+                and s.body[0].value.func.attr == "decode" and isinstance(s.body[0].value.func.value, ast.Name) \
+                and s.body[0].value.func.value.id in env and env[s.body[0].value.func.value.id].ty.kind == "string":
+            # try: x = s.decode(…) / except: pass, s a str: str has no .decode — AttributeError, caught; nothing happens
+            self.notes.append(f"line {s.lineno}: `{ast.unparse(s.body[0].value)}` on a str raises AttributeError, which the bare "
+                              f"`except: pass` swallows: no effect")
+            return go(env)
+        if (self.objects or self.spec.get("checked_index")) and isinstance(s, ast.Try) and not s.orelse and not s.finalbody and len(s.handlers) == 1 \
+                and len(s.body) == 1 and isinstance(s.body[0], ast.Assign) and len(s.handlers[0].body) == 1 \
+                and isinstance(s.handlers[0].body[0], ast.Assign) and dotted(s.handlers[0].type) in (
+                    "AttributeError", "KeyError", "TypeError", "ValueError") \
+                and isinstance(s.body[0].targets[0], ast.Name) and isinstance(s.handlers[0].body[0].targets[0], ast.Name) \
+                and s.body[0].targets[0].id == s.handlers[0].body[0].targets[0].id:
+            # try: x = e1 / except E: x = e2 — e2 is evaluated iff e1 raises E; another exception of e1 propagates
+            name = s.body[0].targets[0].id
+            terms = []
+            tys_ = []
+            for ex in (s.body[0].value, s.handlers[0].body[0].value):
+                save, self.pending = self.pending, []
+                v_ = self.expr(ex, env)
+                tys_.append(v_.ty.with_elem(False))
+                terms.append(self.wrap_pending(self.pending, f"(Except.ok {self.to_pyobj(v_, s) if self.objects else v_.code})"))
+                self.pending = save
+            if not self.objects and (tys_[0] != tys_[1] or tys_[0].kind not in ("int", "f64", "string")):
+                self.bad(s, f"try / except assigning {tys_[0]} and {tys_[1]}")
+            kind = {"ValueError": "valueError", "KeyError": "keyError", "TypeError": "typeError",
+                    "AttributeError": "attributeError"}[dotted(s.handlers[0].type)]
+            if not self.objects and kind != "valueError":
+                self.bad(s, f"handler of {dotted(s.handlers[0].type)} outside the object layer")
+            v = self.raising(f"(Py.tryCatch {terms[0]} {self.err}.{kind} {terms[1]})", PYOBJ if self.objects else tys_[0])
+            return self.bind(name, v, env, go, pad, s)
+        if self.objects and isinstance(s, ast.Try) and not s.orelse and not s.finalbody and len(s.handlers) == 1 \
+                and len(s.body) == 1 and isinstance(s.body[0], ast.Assign) and len(s.body[0].targets) == 1 \
+                and isinstance(s.body[0].targets[0], ast.Name) and len(s.handlers[0].body) == 1 \
+                and isinstance(s.handlers[0].body[0], ast.Raise) and s.handlers[0].body[0].exc is not None \
+                and (s.handlers[0].type is None or dotted(s.handlers[0].type) in ("Exception", "BaseException")):
+            # try: x = e1 / except: raise E(...) — every exception of e1 becomes E (`other` = not modelled stays)
+            ex_ = s.handlers[0].body[0].exc
+            exc = dotted(ex_.func) if isinstance(ex_, ast.Call) else dotted(ex_)
+            kind = {"ValueError": "valueError", "KeyError": "keyError", "TypeError": "typeError",
+                    "AttributeError": "attributeError"}.get(exc)
+            if kind is None:
+                self.bad(s, f"handler raises {exc}")
+            save, self.pending = self.pending, []
+            try:
+                v_ = self.expr(s.body[0].value, env)
+                term = self.wrap_pending(self.pending, f"(Except.ok {self.to_pyobj(v_, s)})")
+            finally:
+                self.pending = save
+            v = self.raising(f"(Py.tryRaise {term} {self.err}.{kind})", PYOBJ)
+            return self.bind(s.body[0].targets[0].id, v, env, go, pad, s)
         if isinstance(s, ast.With):
             for it in s.items:
                 if not (isinstance(it.context_expr, ast.Call) and dotted(it.context_expr.func) in ("numpy.errstate", "np.errstate")
@@ -1763,12 +2057,24 @@ class Fn:
             calls = [n for st_ in body for n in ast.walk(st_) if isinstance(n, ast.Call) and dotted(n.func) == spec["slice_call"]]
             if len(calls) != 1 or calls[0].keywords:
                 self.bad(node, f"expected exactly one positional call of {spec['slice_call']}")
-            spec = dict(spec, slice_result="(" + ", ".join(ast.unparse(a) for a in calls[0].args) + ("," if len(calls[0].args) == 1 else "") + ")")
+            extra = list(spec.get("slice_extra", []))
+            spec = dict(spec, slice_result="(" + ", ".join([ast.unparse(a) for a in calls[0].args] + extra)
+                        + ("," if len(calls[0].args) + len(extra) == 1 else "") + ")")
             self.spec = spec
-            self.notes.append(f"result: the arguments of the call `{ast.unparse(calls[0])}`")
-        if "slice_result" in spec:
+            self.notes.append(f"result: the arguments of the call `{ast.unparse(calls[0])}`"
+                              + (f", then {', '.join(extra)}" if extra else ""))
+        if "slice_result" in spec and spec.get("slice_keep_all"):
+            # every statement is part of the definition except the statement of the call itself
+            drop = [st_ for st_ in body if any(n is calls[0] for n in ast.walk(st_))]
+            for st_ in drop:
+                self.notes.append(f"line {st_.lineno}: the call statement itself is not part of the definition")
+            body = [st_ for st_ in body if st_ not in drop]
+        elif "slice_result" in spec:
             body = self.slice(body, spec["slice_result"])
             self.notes.append("slicing assumes that the statements left out do not mutate the kept arrays in place")
+        self.has_continue = "for_body" in spec and any(isinstance(n, ast.Continue) for st_ in body for n in ast.walk(st_))
+        if self.has_continue:
+            self.notes.append("`continue`: the result is `none` (this pass of the loop produces nothing), otherwise `some …`")
         def calls_raising(n):
             if not isinstance(n, ast.Call):
                 return False
@@ -1779,11 +2085,16 @@ class Fn:
                           (isinstance(n, ast.Call) and dotted(n.func) == "datetime.datetime" and spec.get("checked_datetime"))
                           for s in body for n in ast.walk(s)) \
             and spec.get("raises", True)
+        if self.objects or spec.get("checked_index"):
+            self.raises = True
 
         def k_end(env_end):
             if "slice_result" in spec:
                 v = self.expr(ast.parse(spec["slice_result"], mode="eval").body, env_end)
                 self.ret_ty = v.ty.with_elem(False)
+                if self.has_continue:
+                    self.ret_ty = OPTION(self.ret_ty)
+                    return "  " + self.ret(f"(some {v.code})")
                 return "  " + self.ret(v.code)
             self.bad(node, "control reaches the end of the function without return")
         code = self.block(body, env, k_end, 1)
@@ -1802,7 +2113,7 @@ class Fn:
             self.notes.append("Optional result: `return None` is `none`, `return v` is `some v`")
         rt = self.ret_ty.lean()
         if self.raises:
-            rt = f"Except Py.Err {_paren(rt)}"
+            rt = f"Except {self.err} {_paren(rt)}"
         sig = " ".join(([("{α : Type} [RealOps α]")] if self.uses_real else []) + opq_params +
                        [f"({a} : {t.lean()})" for a, t in lean_params])
         head = [f"/-- `{self.name}` — {self.relfile}:{node.lineno}-{node.end_lineno}",
@@ -1823,7 +2134,7 @@ class Fn:
 
     def slice(self, body, result_expr):
         """backward slice: keep the top-level statements the result expression depends on (through the variables they
-        assign); the statements left out are listed in the header (they cannot influence the result)"""
+        assign) and those that contain a `raise`; the statements left out are listed in the header"""
         need = self.reads(ast.parse(result_expr, mode="eval"))
         keep = [False] * len(body)
         for i in range(len(body) - 1, -1, -1):
@@ -1831,7 +2142,8 @@ class Fn:
             if isinstance(s, ast.Expr) and isinstance(s.value, ast.Constant):
                 continue
             asg = set(self.assigned([s]))
-            if asg & need:
+            exits = any(isinstance(n, ast.Raise) for n in ast.walk(s))
+            if asg & need or exits:     # a statement that can raise decides whether there is a result at all
                 keep[i] = True
                 if not isinstance(s, (ast.If, ast.For, ast.AugAssign)) and not any(
                         isinstance(n, ast.Subscript) and isinstance(n.ctx, ast.Store) for n in ast.walk(s)):
@@ -2036,11 +2348,52 @@ TARGETS = [
     # C19: the time-string parser nested in csep_ascii (two formats tried in turn; CSEPIOException = Err.other)
     dict(file="csep/utils/readers.py", func="csep_ascii.parse_datetime", lean="reader_parse_datetime", prop="C19", also=[],
          params=dict(dt_string=STRING)),
+    # C19 / C14: per-record body of csep_ascii (the loop over the records of csv.reader): cells are strings; `line[k]` can raise
+    # IndexError, float() / int() ValueError; `continue` on the header of the first pass
+    dict(file="csep/utils/readers.py", func="csep_ascii.is_header_line", lean="csep_is_header", prop="C19", also=["C14"],
+         checked_index=True, params=dict(line=LIST(STRING))),
+    dict(file="csep/utils/readers.py", func="csep_ascii", lean="csep_record", prop="C19", also=["C14"], label="csep_ascii[record]",
+         for_body="(i, line)", free_params=["is_first_event"], slice_call="events.append", slice_keep_all=True,
+         slice_extra=["catalog_id"], checked_index=True,
+         callees={"is_header_line": "csep_is_header", "parse_datetime": "reader_parse_datetime"},
+         params=dict(i=INT, line=LIST(STRING), is_first_event=BOOL)),
+    # C19: per-record body of jma_csv; the two helper lambdas of the function are inlined
+    dict(file="csep/utils/readers.py", func="jma_csv", lean="jma_record", prop="C19", also=[], label="jma_csv[record]",
+         for_body="(id, line)", free_params=["is_first_event"], slice_call="events.append", slice_keep_all=True,
+         checked_index=True, params=dict(id=INT, line=LIST(STRING), is_first_event=BOOL)),
     # C19: per-record body of ingv_horus: one row of the structured array (int32 / float64 fields), the second-60 carries
     dict(file="csep/utils/readers.py", func="ingv_horus", lean="horus_record", prop="C19", also=[], label="ingv_horus[record]",
          for_body="(n, line)", slice_call="out.append", checked_datetime=True,
          params=dict(n=INT, line={"fields": dict(year=INT, month=INT, day=INT, hour=INT, minute=INT, second=F64, lat=F64,
                                                  lon=F64, depth=F64, Mw=F64)})),
+    # C18 (csep/models.py): EvaluationResult as value trees. The nine stored fields and `named_type` are arbitrary Python values
+    dict(file="csep/models.py", func="EvaluationResult.__init__", lean="er_init", prop="C18", also=[],
+         slice_result="(self.test_distribution, self.name, self.observed_statistic, self.quantile, self.status, "
+                      "self.obs_catalog_repr, self.sim_name, self.obs_name, self.min_mw)",
+         params=dict(self=RECORD, test_distribution=PYOBJ, name=PYOBJ, observed_statistic=PYOBJ, quantile=PYOBJ, status=PYOBJ,
+                     obs_catalog_repr=PYOBJ, sim_name=PYOBJ, obs_name=PYOBJ, min_mw=PYOBJ)),
+    dict(file="csep/models.py", func="EvaluationResult.to_dict", lean="er_to_dict", prop="C18", also=[], objects=True,
+         params=dict(self=OBJECT),
+         expr_params={"self.test_distribution": ("test_distribution", PYOBJ), "self.name": ("name", PYOBJ),
+                      "self.observed_statistic": ("observed_statistic", PYOBJ), "self.quantile": ("quantile", PYOBJ),
+                      "self.status": ("status", PYOBJ), "self.obs_catalog_repr": ("obs_catalog_repr", PYOBJ),
+                      "self.sim_name": ("sim_name", PYOBJ), "self.obs_name": ("obs_name", PYOBJ),
+                      "self.min_mw": ("min_mw", PYOBJ), "self.named_type": ("named_type", PYOBJ)}),
+    dict(file="csep/models.py", func="EvaluationResult.from_dict", lean="er_from_dict", prop="C18", also=[], objects=True,
+         params=dict(cls=UNUSED, adict=PYOBJ), callees={"cls": "er_init"}),
+    # C18: region dictionaries (to_dict only): name a str or None, float64 coordinates as bit patterns, never computed with
+    # from_dict up to the call of from_origins: the four arguments of that call
+    dict(file="csep/core/regions.py", func="CartesianGrid2D.from_dict", lean="grid_from_dict", prop="C18", also=["C14"], objects=True,
+         params=dict(cls=UNUSED, adict=PYOBJ), slice_result="(origins, dh, magnitudes, name)"),
+    dict(file="csep/core/regions.py", func="CartesianGrid2D.to_dict", lean="grid_to_dict", prop="C18", also=["C14"], objects=True,
+         params=dict(self=OBJECT),
+         expr_params={"self.name": ("name", OPTSTR), "self.dh": ("dh", FBITS),
+                      "self.polygons": ("polygons", LIST(OBJ_ATTRS(origin=TUPLE(FBITS, FBITS)))),
+                      "self.__class__.__name__": ("class_id", PYOBJ)}),
+    dict(file="csep/core/regions.py", func="QuadtreeGrid2D.to_dict", lean="quad_to_dict", prop="C18", also=[], objects=True,
+         params=dict(self=OBJECT),
+         expr_params={"self.name": ("name", OPTSTR),
+                      "self.polygons": ("polygons", LIST(OBJ_ATTRS(origin=TUPLE(FBITS, FBITS))))}),
     # C09: float64 sample, float64 query, `cdf` not passed (the precomputed-ecdf argument is only used by binned_ecdf)
     dict(file="csep/utils/stats.py", func="ecdf", lean="ecdf", prop="C09", also=[], params=dict(x=LIST(F64))),
     dict(file="csep/utils/stats.py", func="greater_equal_ecdf", lean="greater_equal_ecdf", prop="C09", also=[],
@@ -2123,9 +2476,11 @@ class Translator:
         res = self.results.get(spec["lean"])
         if res is None or res["status"] != "ok":
             caller.bad(node, f"call of {spec['func']}, which is not translated ({(res or {}).get('reason', 'later in TARGETS')})")
-        if res["raises"] and not allow_raise:
+        pend_call = res["raises"] and not allow_raise and caller.raises and \
+            (caller.objects or caller.spec.get("checked_index")) and caller.err == ("Py.ErrX" if spec.get("objects") else "Py.Err")
+        if res["raises"] and not allow_raise and not pend_call:
             caller.bad(node, f"call of {spec['func']}, which can raise, inside an expression (only `x = f(…)` statements)")
-        ps = [(a, t) for a, t in spec["params"].items() if not isinstance(t, dict) and t.kind != "none"]
+        ps = [(a, t) for a, t in spec["params"].items() if not isinstance(t, dict) and t.kind not in ("none", "record")]
         # keyword arguments name parameters of the callee (in any order); statically fixed parameters must be given the
         # value they are fixed to
         vals = list(vals)
@@ -2231,6 +2586,8 @@ class Translator:
         r = Val(f"({spec['lean']} " + " ".join(codes) + ")", res["ret_ty"].with_elem(elem))
         if res.get("dict_keys"):
             r.dict_keys = res["dict_keys"]
+        if pend_call:
+            return caller.raising(r.code, r.ty)     # evaluated first, in a temporary, in source order
         return r
 
     def run(self):
@@ -2276,6 +2633,20 @@ class Translator:
                             and isinstance(a.value, ast.Constant) and isinstance(a.value.value, int):
                         statics[f"{c.name}.{a.targets[0].id}.value"] = a.value.value
         spec["statics"] = statics
+        lams, consts, seen_ = {}, {}, {}
+        for st_ in ast.walk(node):
+            if isinstance(st_, ast.Assign) and len(st_.targets) == 1 and isinstance(st_.targets[0], ast.Name):
+                seen_[st_.targets[0].id] = seen_.get(st_.targets[0].id, 0) + 1
+        for st_ in node.body:       # top level of the enclosing function, assigned exactly once
+            if isinstance(st_, ast.Assign) and len(st_.targets) == 1 and isinstance(st_.targets[0], ast.Name) \
+                    and seen_[st_.targets[0].id] == 1:
+                if isinstance(st_.value, ast.Lambda):
+                    lams[st_.targets[0].id] = st_.value
+                elif isinstance(st_.value, ast.Constant) and isinstance(st_.value.value, str):
+                    consts[st_.targets[0].id] = st_.value.value
+        spec["local_lambdas"], spec["local_consts"] = lams, consts
+        # TARGETS.free_params: variables of the enclosing function that the body reads (e.g. a first-pass flag): parameters too
+        names = names + [n for n in spec.get("free_params", []) if n not in names]
         new = ast.FunctionDef(name=node.name, args=ast.arguments(posonlyargs=[], args=[ast.arg(arg=n) for n in names],
                                                                  kwonlyargs=[], kw_defaults=[], defaults=[]),
                               body=list(lp.body), decorator_list=[], returns=None, lineno=lp.lineno,
